@@ -107,9 +107,17 @@ var (
 	wdScale   int32 = 1
 	retryMu   sync.Mutex
 	confirmed int // guarded by retryMu
+	// the same number, readable without the lock
+	confirmedN int32
 )
 
-func wd(d time.Duration) time.Duration { return d * time.Duration(atomic.LoadInt32(&wdScale)) }
+// once two hangs are confirmed by the long run the tree is known to hang: the remaining cases are not waited for as long
+func wd(d time.Duration) time.Duration {
+	if atomic.LoadInt32(&confirmedN) >= 2 && atomic.LoadInt32(&wdScale) == 1 {
+		return d / 4
+	}
+	return d * time.Duration(atomic.LoadInt32(&wdScale))
+}
 
 func restsOnWatchdog(obs string) bool {
 	return strings.Contains(obs, "hang") || obs == "HANG" || strings.Contains(obs, "end=noammo") || strings.HasPrefix(obs, "CHILDERR")
@@ -131,6 +139,7 @@ func run(input string) string {
 	again := runOnce(input)
 	if restsOnWatchdog(again) {
 		confirmed++
+		atomic.StoreInt32(&confirmedN, int32(confirmed))
 	}
 	return again
 }
@@ -269,6 +278,9 @@ func childMain(mode string, args []string) {
 		if n, err := strconv.Atoi(os.Getenv("C13_WD_SCALE")); err == nil && n >= 1 && n <= 10 {
 			atomic.StoreInt32(&wdScale, int32(n))
 		}
+		if n, err := strconv.Atoi(os.Getenv("C13_WD_CONFIRMED")); err == nil && n >= 0 {
+			atomic.StoreInt32(&confirmedN, int32(n))
+		}
 		done := make(chan string, 1)
 		go func() {
 			defer func() {
@@ -321,7 +333,8 @@ func runChild(mode string, args ...string) string {
 	ctx, cancel := context.WithTimeout(context.Background(), wd(25*time.Second))
 	defer cancel()
 	cmd := exec.CommandContext(ctx, exe, append([]string{childFlag, mode}, args...)...)
-	cmd.Env = append(os.Environ(), "GOMEMLIMIT=2GiB", "GOTRACEBACK=single", fmt.Sprintf("C13_WD_SCALE=%d", atomic.LoadInt32(&wdScale)))
+	cmd.Env = append(os.Environ(), "GOMEMLIMIT=2GiB", "GOTRACEBACK=single", fmt.Sprintf("C13_WD_SCALE=%d", atomic.LoadInt32(&wdScale)),
+		fmt.Sprintf("C13_WD_CONFIRMED=%d", atomic.LoadInt32(&confirmedN)))
 	var stdout, stderr bytes.Buffer
 	cmd.Stdout = &stdout
 	cmd.Stderr = &stderr
